@@ -42,44 +42,3 @@ Theorem c15_listener_invariant_in_every_reachable_world :
     AI (fold_left (run_top_all beh) ops (world0 fuel p)).
 Proof. exact reachable_AI. Qed.
 Print Assumptions c15_listener_invariant_in_every_reachable_world.
-
-From Coq Require Import Bool.
-Require Import EV.Fetch EV.NoUB EV.Sender EV.Users.
-
-(* World::remove_handler on any world satisfying the reachable invariant ZI: when it returns, the id is
-   invalid, and the static view (receiver, priority, order, sent-sets, queries) of every other handler -
-   in particular whether it exists - is unchanged *)
-Theorem c15_remove_handler_removes_exactly_that_handler :
-  forall (beh : hinfo -> logent -> N -> script) (k : key) (w : world), ZI w ->
-    match remove_handler beh k w with
-    | ROk _ w' => sm_get k (w_hs w') = None /\ hs_keep w' w (k :: nil)
-    | RFail _ _ => True end.
-Proof. exact remove_handler_exact. Qed.
-Print Assumptions c15_remove_handler_removes_exactly_that_handler.
-
-(* World::remove_event of a global event: afterwards the event id is invalid and the live handlers are
-   exactly the handlers of before that neither receive the event nor are able to send it *)
-Theorem c15_remove_global_event_removes_exactly_its_users :
-  forall (beh : hinfo -> logent -> N -> script) (k : key) (w w' : world), ZI w ->
-    remove_global_event beh k w = ROk true w' ->
-    sm_get k (w_gev w') = None /\
-    forall hk, (exists h', hlive w' hk h') <->
-               (exists h, hlive w hk h /\ recvid_eqb (h_recv h) (RvGlobal k) || smem (fst k) (h_sent_g h) = false).
-Proof. exact remove_global_event_exact. Qed.
-Print Assumptions c15_remove_global_event_removes_exactly_its_users.
-
-Theorem c15_remove_targeted_event_removes_exactly_its_users :
-  forall (beh : hinfo -> logent -> N -> script) (k : key) (w w' : world), ZI w ->
-    remove_targeted_event beh k w = ROk true w' ->
-    sm_get k (w_tev w') = None /\
-    forall hk, (exists h', hlive w' hk h') <->
-               (exists h, hlive w hk h /\ recvid_eqb (h_recv h) (RvTargeted k) || smem (fst k) (h_sent_t h) = false).
-Proof. exact remove_targeted_event_exact. Qed.
-Print Assumptions c15_remove_targeted_event_removes_exactly_its_users.
-
-(* ZI holds in every reachable world *)
-Theorem c15_reachable_worlds_satisfy_ZI :
-  forall (beh : hinfo -> logent -> N -> script) (fuel p : N) (ops : list top_all),
-    ZI (fold_left (run_top_all beh) ops (world0 fuel p)).
-Proof. exact reachable_ZI. Qed.
-Print Assumptions c15_reachable_worlds_satisfy_ZI.
